@@ -367,9 +367,12 @@ var checkC06Derived = def("C06/derived", func(gc gen.GameCase) error {
 
 func TestC06_derived(t *testing.T) {
 	runRapid(t, "C06/derived", 40000, func(t *rapid.T) gen.GameCase {
-		if rapid.IntRange(0, 2).Draw(t, "synth") == 0 {
+		switch rapid.IntRange(0, 5).Draw(t, "synth") {
+		case 0, 1:
 			gc, _ := gen.Play(t, gen.Synth(t), 4, gen.DrawPolicy(t))
 			return gc
+		case 2: // in check from a pawn that just jumped, e.p. capture available
+			return gen.GameCase{FEN: gen.EPCheck(t).FEN()}
 		}
 		gc, _ := gen.Game(t, 60)
 		return gc
